@@ -63,7 +63,7 @@ def refusalStr : Model.SpendRefusal → String
   | .tx => "REFUSED:tx" | .txin => "REFUSED:txin" | .pretend => "REFUSED:pretend" | .script => "REFUSED:script"
   | .configure => "REFUSED:configure" | .env e => s!"REFUSED:env:{e.code}"
 
-def cmdSpendModel (a : List String) : String :=
+def cmdSpendModelR (retry : Bool) (a : List String) : String :=
   match spendArgs a with
   | none => "bad-op"
   | some args =>
@@ -81,8 +81,17 @@ def cmdSpendModel (a : List String) : String :=
       let (eEnd, hh, n, vt, err) := spendLoop s.cx (Model.continueFuel e + 8) e fnvInit 0 ""
       let endS := match err with | none => "OK" | some x => errStr x
       let fin := match err with | none => joinItems eEnd.see.stack | some _ => "-"
-      head ++ s!" steps={n} hs={hex16 hh} end={endS} final={fin}" ++ (if verbose then " trace=" ++ vt else "") ++
+      -- SPENDR: the failed step asked for again, twice.  A failed step leaves the session as it was (`spendLoop` hands
+      -- back the state it failed in), so it fails the same way.
+      let retryS := match retry, err with
+        | true, some _ =>
+          let again := fun (_ : Unit) => match Model.instStep s.cx Glue.tapCtx eEnd with | .error x => errStr x | .ok _ => "OK"
+          " retry=" ++ again () ++ "," ++ again ()
+        | _, _ => ""
+      head ++ s!" steps={n} hs={hex16 hh} end={endS} final={fin}" ++ (if verbose then " trace=" ++ vt else "") ++ retryS ++
         " verdict=" ++ sessionVerdict args.flags s.conf.sigver err eEnd.see.stack
+
+def cmdSpendModel (a : List String) : String := cmdSpendModelR false a
 
 end Driver
 
